@@ -424,6 +424,11 @@ def run_check(prop, tier, seed, replay=None, jobs=None):
 
     src_obl = lane.source_obligations()
 
+    from harness import fingerprints
+    try:
+        moved_files = fingerprints.changed_files()
+    except Exception:  # noqa: BLE001
+        moved_files = []
     results = []
     counters = collections.Counter()
     keys = set()
@@ -444,6 +449,19 @@ def run_check(prop, tier, seed, replay=None, jobs=None):
                     if f.endswith('.json'):
                         corpus.append(json.load(open(os.path.join(corpus_dir, f)))['case'])
             cases = corpus + list(lane.cases(tier, rng))
+            # effort escalation: where the source moved away from the recorded fingerprints, the quick tier spends
+            # three more generator runs (other derived seeds, duplicates dropped); verdict rules are unchanged
+            moved = moved_files
+            counters['escalated'] = 0
+            if moved and tier == 'quick' and os.environ.get('VERIF_NO_ESCALATION') != '1':
+                seen_cases = {json.dumps(c, sort_keys=True, default=str) for c in cases}
+                for k in (1, 2, 3):
+                    for c in lane.cases(tier, random.Random(seed * 31 + k * 7919 + 1)):
+                        key = json.dumps(c, sort_keys=True, default=str)
+                        if key not in seen_cases:
+                            seen_cases.add(key)
+                            cases.append(c)
+                            counters['escalated'] += 1
         n = len(cases)
         chunk = max(1, min(50, n // (jobs * 4) + 1))
         chunks = [cases[i:i + chunk] for i in range(0, n, chunk)]
@@ -614,6 +632,8 @@ def run_check(prop, tier, seed, replay=None, jobs=None):
             'input_distribution': tags, 'exhaustive': bool(getattr(lane, 'EXHAUSTIVE', {}).get(tier, False)),
             'known_findings_seen': sorted(k['id'] for k in seen_known.values()),
             'generated_files_changed': gen_changed,
+            'source_files_changed_since_fingerprint': moved_files,
+            'escalated_extra_cases': counters.get('escalated', 0),
             'leanchecker': leanchecker,
         },
         'assumptions': [lane.LEVEL_NOTE] if lane.LEVEL_NOTE else [],
